@@ -129,6 +129,8 @@ def _resolved(ev):
     k = ev["k"]
     if k == "resp":
         return {"k": "resp", "id": ev["id"], "p": ev["p"]}
+    if k == "err" and ev.get("id") is None:
+        return {"k": "notif", "method": "(error response with id null)"}
     if k == "err":
         return {"k": "err", "id": ev["id"], "code": ev.get("code"), "msg": ev.get("msg")}
     if k == "req":
